@@ -476,4 +476,73 @@ theorem dataFrames_eventsU (keys : Nat → Option Bytes) (cs : List Bytes) :
             | nil => simp at hl
             | cons y ys => simp [flagged]
 
+/-- frames whose text payloads are complete UTF-8 each: the decoder-aware events are the plain fragment events and
+    nothing is held back between frames -/
+theorem dataFrames_eventsU_strict (text : Bool) (keys : Nat → Option Bytes) (fr : List (Bytes × Bool))
+    (hv : text = true → ∀ pf ∈ fr, StrictOk pf.1) :
+    wellFramed fr = true → ∀ (start : Nat) (first : Bool),
+    framesEventsU (if first then none else some (if text then 1 else 2)) [] (dataFrames text keys start first fr) =
+      some (none, [], fr.map (fun pf => WsEv.msg text pf.1 true pf.2)) := by
+  induction fr with
+  | nil => intro h; simp [wellFramed] at h
+  | cons pf rest ih =>
+    obtain ⟨p, fin⟩ := pf
+    intro h start first
+    have hp : text = true → incDecode [] p fin = some (p, []) := fun ht =>
+      incDecode_strictOk p fin (hv ht (p, fin) (by simp))
+    have hfeU : frameEventU (if first then none else some (if text then 1 else 2)) []
+        { fin := fin, rsv := 0, opcode := (if first then (if text then 1 else 2) else 0), key := keys start, payload := p }
+        = some (if fin then none else some (if text then 1 else 2), [], WsEv.msg text p true fin) := by
+      cases text
+      · cases first <;> simp [frameEventU, frameEvent]
+      · have := hp rfl
+        cases first <;> simp [frameEventU, frameEvent, this]
+    have hop8 : ¬ ((if first then (if text then 1 else 2) else 0) = 8) := by
+      cases first <;> cases text <;> simp
+    cases rest with
+    | nil =>
+      simp only [wellFramed] at h; subst h
+      have hd : dataFrames text keys start first [(p, true)] =
+          [{ fin := true, rsv := 0, opcode := (if first then (if text then 1 else 2) else 0), key := keys start, payload := p }] := rfl
+      rw [hd, framesEventsU, hfeU]
+      simp [hop8, framesEventsU]
+    | cons q rest' =>
+      simp only [wellFramed, Bool.and_eq_true, Bool.not_eq_true'] at h
+      obtain ⟨hfin, hwf⟩ := h
+      subst hfin
+      have hih := ih (fun ht pf hpf => hv ht pf (List.mem_cons_of_mem _ hpf)) hwf (start + 1) false
+      simp only [Bool.false_eq_true, if_false] at hih
+      have hd : dataFrames text keys start first ((p, false) :: q :: rest') =
+          { fin := false, rsv := 0, opcode := (if first then (if text then 1 else 2) else 0), key := keys start, payload := p }
+            :: dataFrames text keys (start + 1) false (q :: rest') := rfl
+      rw [hd, framesEventsU, hfeU]
+      simp only [hop8, if_false, Bool.false_eq_true]
+      rw [hih]
+      simp
+
+/-- `message_wire_roundtrip` over the decoder the driver runs (`streamEventsU`) -/
+theorem message_wire_roundtripU (client : Bool) (t : Bool) (keys : Nat → Option Bytes) (fr : List (Bytes × Bool))
+    (hwf : wellFramed fr = true) (hk : KeysOk client keys) (hsz : ∀ pf ∈ fr, pf.1.length < 9223372036854775808)
+    (hv : t = true → ∀ pf ∈ fr, StrictOk pf.1)
+    (fuel : Nat) (hfuel : fr.length < fuel) :
+    streamEventsU client noExt fuel none [] ((dataFrames t keys 0 true fr).flatMap encodeFrame)
+      = some (fr.map (fun pf => WsEv.msg t pf.1 true pf.2)) ∧
+    reassemble none (fr.map (fun pf => WsEv.msg t pf.1 true pf.2)) = [(t, (fr.map (·.1)).flatten)] := by
+  constructor
+  · rw [streamEventsU_encode client noExt _ (dataFrames_ok client t keys fr hk hsz 0 true) fuel none []
+        (by rw [dataFrames_length]; exact hfuel)]
+    have := dataFrames_eventsU_strict t keys fr hv hwf 0 true
+    simp only [if_true] at this
+    rw [this]; rfl
+  · exact reassemble_burst t fr hwf none
+
+/-- every fragment the relay sends (`fragmentize`) is complete UTF-8 when the message is text -/
+theorem fragmentize_strictOk (fs : Nat) (lens : List Nat) (c : Bytes) :
+    ∀ pf ∈ fragmentize fs lens true c, StrictOk pf.1 := by
+  intro pf hpf
+  unfold fragmentize at hpf
+  obtain ⟨q, _, rfl⟩ := List.mem_map.mp hpf
+  simp only [payload, if_true]
+  exact strictOk_san q.1
+
 end MitmVerif.C28.Wire
